@@ -72,6 +72,20 @@ def case_eko(log, opnames, folder=False):
     """ops applied in sequence to an EKO opened from an archive (or from an extracted folder)."""
     log.encode(*iofs.encoded_functions())
     decide = iofs.Decider(log)
+    _eko_history(log, decide, opnames, folder)
+    decide.finish()
+
+
+def case_eko_pairs(log, first):
+    """thorough: `first`, then every second operation, then the context exit."""
+    log.encode(*iofs.encoded_functions())
+    decide = iofs.Decider(log)
+    for b in OPS:
+        _eko_history(log, decide, [first, b, "exit"], False)
+    decide.finish()
+
+
+def _eko_history(log, decide, opnames, folder):
     ops = [OPS[n] for n in opnames]
     label = "+".join(opnames) + (" [folder]" if folder else "")
 
@@ -411,8 +425,7 @@ def main():
     chk.case("validate", case_validate)
     if tier == "thorough":
         for a in OPS:
-            for b in OPS:
-                chk.case("eko.%s+%s+exit" % (a, b), case_eko, opnames=[a, b, "exit"])
+            chk.case("eko.%s+any+exit" % a, case_eko_pairs, first=a)
     return chk.run()
 
 
